@@ -51,13 +51,14 @@ def hitsound_copy(osu_src: OsuMap, osu_tgt: OsuMap) -> OsuMap:
     df_src = df_src.drop("hitsound_set", axis="columns")
     df_src = df_src.groupby("offset")
 
+    # The copy of the target starts silent: it only carries what the source gives it
+    osu_tgt = deepcopy(osu_tgt)
+    osu_tgt.reset_samples()
+
     # We'll just get the target data then export it again
     df = pd.concat([i.df for i in osu_tgt.notes], sort=False)
     df = df.sort_values("offset").reset_index(drop=True)
     df_to_offsets = df["offset"]
-
-    osu_tgt = deepcopy(osu_tgt)
-    osu_tgt.reset_samples()
 
     # The idea is to loop through unique offsets
     # where there's hitsounds/samples
